@@ -188,7 +188,171 @@ pub fn test_case(case: &TagCase) -> TestResult {
         .class(case.pre.is_some(), "tagged-by-another-predictor-first"))
 }
 
+/// A model with more than 65,536 character patterns (dictionary words, boundary n-grams and tag
+/// n-grams share one pattern numbering) and tag models whose tag n-grams sit on both sides of
+/// that threshold. Probe texts put every tag-model token in front of every dictionary word: the
+/// tag n-gram is absent there, so the token must get its bias-only tag - unless the n-gram really
+/// follows (positive controls).
+#[derive(Clone, Debug, Serialize, Deserialize)]
+pub struct LargeTagCase {
+    pub n_words: usize,
+    pub n_tokens: usize,
+}
+
+pub fn test_large(c: &LargeTagCase) -> TestResult {
+    use vcommon::mirror::{TagModelSpec, TagNgramSpec, TagWeightSpec, WordSpec};
+    let ch = |i: usize| char::from_u32(0x4E00 + i as u32).unwrap();
+    let word = |k: usize| -> String { [ch(k / 300), ch(k % 300)].iter().collect() };
+    let token = |j: usize| -> String { char::from_u32(0x3042 + 2 * j as u32).unwrap().to_string() };
+    // tag n-grams: one that sorts before all words, one in the middle, one after all words
+    let tag_ngram = |j: usize| -> String {
+        match j % 3 {
+            0 => [ch(280), ch(j)].iter().collect(),
+            1 => ['一', char::from_u32(0x3041 + j as u32).unwrap()].iter().collect(),
+            _ => [ch(100), char::from_u32(0x30A1 + j as u32).unwrap()].iter().collect(),
+        }
+    };
+    let mut spec = ModelSpec { char_window: 3, type_window: 1, bias: 1, ..ModelSpec::default() };
+    for k in 0..c.n_words {
+        spec.dict.push(WordSpec { word: word(k), weights: vec![0, 0, 0], comment: String::new() });
+    }
+    for j in 0..c.n_tokens {
+        spec.tag_models.push(TagModelSpec {
+            token: token(j),
+            tags: vec![vec!["P".into(), "Q".into()]],
+            char_ngrams: vec![TagNgramSpec {
+                ngram: tag_ngram(j),
+                weights: vec![TagWeightSpec { rel_position: 2, weights: vec![0, 100] }],
+            }],
+            type_ngrams: vec![],
+            bias: vec![10, 0],
+        });
+    }
+    let mut p = util::predictor(&spec, true)?;
+    p.store_tag_scores(true);
+    let mut s = Sentence::default();
+    let mut probes = 0u64;
+    for j in 0..c.n_tokens {
+        // the reference works on the part of the model that can matter for the text
+        let small = |w: Option<usize>, text: &str| ModelSpec {
+            dict: w.map(|k| spec.dict[k].clone()).into_iter().collect(),
+            tag_models: spec.tag_models.iter().filter(|t| text.contains(t.token.as_str())).cloned().collect(),
+            ..ModelSpec { char_window: 3, type_window: 1, bias: 1, ..ModelSpec::default() }
+        };
+        let mut check = |text: String, sub: ModelSpec| -> Result<(), vcommon::engine::Fail> {
+            let cs = util::chars(&text);
+            s.update_raw(text.clone()).map_err(|e| e.to_string())?;
+            p.predict(&mut s);
+            s.fill_tags();
+            let labels = util::labels(&s);
+            let (_, flat, per_token, _) = oracle::ref_tags(&sub, &cs, &labels);
+            ensure_eq!(util::flat_tags(&s), flat, "tags of {text:?} (token {j}, {} character patterns in the model)", c.n_words + c.n_tokens);
+            let t = s.iter_tokens().next().ok_or("no token")?;
+            let cands: Vec<Vec<(String, i64)>> = t.tag_candidates().into_iter().map(|c| c.into_iter().map(|(n, sc)| (n.to_string(), sc as i64)).collect()).collect();
+            ensure_eq!(cands, per_token[0].candidates, "tag_candidates of the first token of {text:?}");
+            Ok(())
+        };
+        let t = format!("{}{}", token(j), tag_ngram(j));
+        let sub = small(None, &t);
+        check(t, sub)?;
+        for k in 0..c.n_words {
+            let t = format!("{}{}", token(j), word(k));
+            let sub = small(Some(k), &t);
+            check(t, sub)?;
+            probes += 1;
+        }
+    }
+    Ok(Info::new(true).class(c.n_words + c.n_tokens > 65536, ">65536-character-patterns").class(probes > 100000, ">100000-probe-texts"))
+}
+
+/// Texts longer than 65,535 characters (and exactly around that length) with a small tagged
+/// model: tokens with tag models occur all along the text, also beyond character 65,536.
+pub fn long_text_cases() -> Vec<TagCase> {
+    use vcommon::mirror::{NgramSpec, TagModelSpec, TagNgramSpec, TagWeightSpec, WordSpec};
+    let mut spec = ModelSpec { char_window: 3, type_window: 2, bias: -2, ..ModelSpec::default() };
+    for (g, w) in [("ab", vec![1, -2, 3, -4, 5]), ("b", vec![2, 0, -1, 0, 1, 7]), ("aab", vec![9, -9, 4, 1]), ("火", vec![1, 1, 1, 1, 1, 1])] {
+        spec.char_ngrams.push(NgramSpec { ngram: g.into(), weights: w });
+    }
+    spec.type_ngrams.push(NgramSpec { ngram: vec![2, 2], weights: vec![3, -1, 2] });
+    spec.dict.push(WordSpec { word: "aba".into(), weights: vec![10, -10, -10, 10], comment: String::new() });
+    for (tok, ng, rel) in [("a", "ab", 1u8), ("火", "火b", 1), ("ab", "a", 0), ("b", "aa", 2)] {
+        spec.tag_models.push(TagModelSpec {
+            token: tok.into(),
+            tags: vec![vec!["X".into(), "Y".into(), "Z".into()], vec!["only".into()]],
+            char_ngrams: vec![TagNgramSpec { ngram: ng.into(), weights: vec![TagWeightSpec { rel_position: rel, weights: vec![0, 4, -1] }] }],
+            type_ngrams: vec![TagNgramSpec { ngram: vec![2], weights: vec![TagWeightSpec { rel_position: 0, weights: vec![1, 0, 2] }] }],
+            bias: vec![2, 1, 0],
+        });
+    }
+    [65_535usize, 65_536, 65_537, 70_000, 131_080]
+        .into_iter()
+        .map(|n| TagCase {
+            spec: spec.clone(),
+            texts: vec![(0..n).map(|i| ['a', 'b', 'a', 'a', '火', 'b', 'é'][(i * 7 + i / 5) % 7]).collect()],
+            edits: vec![vec![]],
+            pre: None,
+        })
+        .collect()
+}
+
+/// Tag models with many classes: a category with 255 / 256 / 300 candidates, a token with 12
+/// categories, bias vectors of 7 / 8 / 9 / 16 / 17 entries.
+pub fn many_class_cases() -> Vec<TagCase> {
+    use vcommon::mirror::{TagModelSpec, TagNgramSpec, TagWeightSpec};
+    let mut out = vec![];
+    for (k, sizes) in [vec![300usize], vec![255, 2], vec![256], vec![7], vec![8], vec![9], vec![2, 2, 2, 2, 2, 2, 2, 2, 2, 2, 2, 2], vec![16, 1, 0, 17], vec![3, 5], vec![4, 4]].into_iter().enumerate() {
+        let total: usize = sizes.iter().filter(|&&n| n >= 2).sum();
+        let mut spec = ModelSpec { char_window: 2, type_window: 1, bias: 1, ..ModelSpec::default() };
+        for (ti, tok) in ["a", "あ", "ab"].into_iter().enumerate() {
+            spec.tag_models.push(TagModelSpec {
+                token: tok.into(),
+                tags: sizes.iter().enumerate().map(|(c, &n)| (0..n).map(|j| format!("c{c}t{j}")).collect()).collect(),
+                char_ngrams: vec![
+                    TagNgramSpec { ngram: "b".into(), weights: vec![TagWeightSpec { rel_position: 1, weights: (0..total).map(|j| ((j * 7 + ti + k) % 13) as i32 - 6).collect() }] },
+                    TagNgramSpec { ngram: "a".into(), weights: vec![TagWeightSpec { rel_position: 0, weights: (0..total).map(|j| ((j * 3 + ti) % 5) as i32 - 2).collect() }] },
+                ],
+                type_ngrams: vec![TagNgramSpec { ngram: vec![2], weights: vec![TagWeightSpec { rel_position: 0, weights: (0..total).map(|j| (j % 4) as i32).collect() }] }],
+                bias: (0..total).map(|j| ((j * 11 + k) % 9) as i32 - 4).collect(),
+            });
+        }
+        out.push(TagCase {
+            spec,
+            texts: vec!["a".into(), "ab".into(), "あab".into(), "baあb".into(), "abab".into()],
+            edits: vec![vec![], vec![(0, 0)], vec![], vec![(1, 1)], vec![(1, 1), (0, 0), (2, 0)]],
+            pre: None,
+        });
+    }
+    out
+}
+
 pub fn run(rep: &mut Report) {
+    rep.run_enum(
+        "many-classes",
+        "deterministic tag models with a category of 255 / 256 / 300 candidates, a token with 12 \
+categories and score vectors of 7 / 8 / 9 / 16 / 17 entries: same oracle as tags-vs-classifier",
+        false,
+        many_class_cases().into_iter(),
+        |c: &TagCase| test_case(c).map(|mut i| { i.nontrivial = true; i }),
+    );
+    rep.run_enum(
+        "long-texts",
+        "texts of 65,535, 65,536, 65,537, 70,000 and 131,080 characters (1-, 2- and 3-byte) with a \
+small model whose four tag-model tokens occur all along the text: same oracle as \
+tags-vs-classifier",
+        false,
+        long_text_cases().into_iter(),
+        |c: &TagCase| test_case(c).map(|mut i| { i.nontrivial = true; i }),
+    );
+    rep.run_enum(
+        "large-models",
+        "a model with 70,000 dictionary words + tag n-grams (more than 65,536 character patterns in \
+one numbering) and 6 tag-model tokens; every token in front of every dictionary word (420,000 \
+probe texts) and in front of its own tag n-gram: tags and stored candidate scores equal RefTags \
+on the relevant part of the model",
+        false,
+        vec![LargeTagCase { n_words: 70000, n_tokens: 6 }, LargeTagCase { n_words: 300, n_tokens: 3 }].into_iter(),
+        test_large,
+    );
     let n = rep.n(40000, 2000000);
     rep.run_prop(
         "tags-vs-classifier",
